@@ -883,7 +883,7 @@ func aliasClass(addr *Expr) string {
 
 // rootOf returns the innermost base of an address term.
 func rootOf(addr *Expr) *Expr {
-	for addr != nil && (addr.Op == "fa" || addr.Op == "ia") {
+	for addr != nil && (addr.Op == "fa" || addr.Op == "ia" || addr.Op == "arr") {
 		addr = addr.Args[0]
 	}
 	return addr
@@ -1057,10 +1057,45 @@ func (s *State) escape(root *Expr, forget bool) {
 func (s *State) join(o *State, widen bool, joinTok string) bool {
 	changed := false
 	for v, e := range s.env {
-		if oe, ok := o.env[v]; !ok || oe.Key != e.Key {
-			delete(s.env, v)
-			changed = true
+		oe, ok := o.env[v]
+		if ok && oe.Key == e.Key {
+			continue
 		}
+		if phi, isPhi := v.(*ssa.Phi); isPhi && ok {
+			// generalise to the phi leaf, carrying the union of what is known
+			leaf := mkLeaf("phi", phi.Name(), phi.Type())
+			if e.Key != leaf.Key {
+				s.transferTo(leaf, e, s)
+			}
+			tmp := newState(s.an)
+			tmp.transferTo(leaf, oe, o)
+			for k, r := range tmp.rng {
+				if cur, has := s.rng[k]; has {
+					s.rng[k] = cur.Union(r)
+				}
+			}
+			for k := range s.rng {
+				if strings.Contains(k, leaf.Key) {
+					if _, has := tmp.rng[k]; !has {
+						delete(s.rng, k)
+					}
+				}
+			}
+			if ts, has := s.types[leaf.Key]; has {
+				if ots, has2 := tmp.types[leaf.Key]; has2 && ts.Pos != nil && ots.Pos != nil {
+					for x := range ots.Pos {
+						ts.Pos[x] = true
+					}
+				} else {
+					delete(s.types, leaf.Key)
+				}
+			}
+			s.env[v] = leaf
+			changed = true
+			continue
+		}
+		delete(s.env, v)
+		changed = true
 	}
 	for k, r := range s.rng {
 		or, ok := o.rng[k]
@@ -1071,8 +1106,21 @@ func (s *State) join(o *State, widen bool, joinTok string) bool {
 		}
 		u := r.Union(or)
 		if !u.Equal(r) {
-			if widen {
-				delete(s.rng, k)
+			if widen && !u.Empty() && !r.Empty() {
+				// interval widening: only the unstable bound is given up
+				lo, hi := r.Lo(), r.Hi()
+				if u.Lo() < lo {
+					lo = negInf
+				}
+				if u.Hi() > hi {
+					hi = posInf
+				}
+				w := isRange(lo, hi)
+				if w.IsTop() {
+					delete(s.rng, k)
+				} else {
+					s.rng[k] = w
+				}
 			} else {
 				s.rng[k] = u
 			}
@@ -1159,6 +1207,31 @@ func (s *State) join(o *State, widen bool, joinTok string) bool {
 		}
 	}
 	return changed
+}
+
+// transferTo records on `leaf` what state src knows about term e (value
+// set, length, nilness, dynamic type).
+func (s *State) transferTo(leaf, e *Expr, src *State) {
+	t := leaf.Typ
+	switch {
+	case isBoolType(t):
+		s.rng[leaf.Key] = src.evalBool(e)
+	case intTypeInfo(t).ok:
+		s.rng[leaf.Key] = src.rangeOf(e)
+	default:
+		if t != nil {
+			if _, ok := t.Underlying().(*types.Slice); ok {
+				s.rng[mkLen(leaf).Key] = src.rangeOf(mkLen(e))
+			}
+		}
+		nn := src.nonNil(e)
+		s.rng["nn:"+leaf.Key] = nn
+		if ts, ok := src.types[e.Key]; ok {
+			s.types[leaf.Key] = ts.clone()
+		} else if e.Op == "makeiface" || e.IsNil() {
+			s.types[leaf.Key] = src.structuralType(e)
+		}
+	}
 }
 
 // event records that an event happened.
